@@ -18,6 +18,7 @@ EXPLANATION = (
     "adjust_duration(_eom_buffer_time) unless told to skip; disable_eom closes the block at the current end and buffers with the custom buffer time if defined, else waits for the fall; "
     "_eom_buffer_time = custom_buffer_time or 2*rise_time; Sequence.enable/modify record what _process_eom_parameters computed (C04). "
     "NOT decided: the drift-correction populations (emulator physics). OWN/FLOW (added): _PhaseDriftParams is built only where a block is opened and in _get_last_eom_pulse_phase_drift; disable_eom_mode corrects the drift from the last EOM pulse to the end of the block; ChannelSamples.modulate extends the mask of every EOM block by the fall time inside the loop over the blocks; the drift window of enable/modify starts where the buffer starts."
+    " Round 5 (added): enable_eom_mode's drift starts at the scheduled buffer slot; both setpoint arrays are copied; a block end is tested with `is None` (tf == 0 is a closed block); controlled beams are distinct; the end-buffer test requires a non-empty slot; modify_eom_setpoint evaluates the old drift where the new drift starts."
 )
 ASSUMPTIONS = ["formulas, guards and sibling code are matched on the symbolic normal form (pstatic/sym.py): temporaries, private helpers, conditional forms and operand order do not matter; state mutation between two reads of one access path is not modelled (orderings are taken from the program order of the logged calls)"]
 
